@@ -36,7 +36,7 @@ def crit_cell(rng, col):
         if k < 0.7:
             return 0
         if k < 0.8:
-            return rng.choice(['5', '3.5', '10'])
+            return rng.choice(['5', '3.5', '10', '0', '0.0', ' 0', '3', '1', '-1'])
         if k < 0.9:
             return rng.choice(TEXTS)
         return None
@@ -46,7 +46,7 @@ def crit_cell(rng, col):
         if k < 0.8:
             return rng.randrange(0, 9)
         if k < 0.9:
-            return rng.choice(['5', '10'])
+            return rng.choice(['5', '10', '0', '3'])
         return None
     if k < 0.4:
         return rng.randrange(0, 6)
@@ -232,5 +232,7 @@ def run_shard(shard, ctx):
 
 
 def finish(r, tier, seed):
-    return {'functions': {k: v for k, v in r.counters.items() if k.startswith('fn:')},
+    from ..refcheck import flag_consistency_verdict
+    extra = flag_consistency_verdict(r, ID)
+    return {**extra, 'functions': {k: v for k, v in r.counters.items() if k.startswith('fn:')},
             'silent_clauses_used': {k: v for k, v in r.counters.items() if k.startswith('silent_clause:')}}
